@@ -131,14 +131,16 @@ def rprefix : RDec Prefix :=
 
 /-! ## constants
 
-`size_of` of the element types of push-grown vectors (DESIGN.md §12 "Heap measurements"; the ones of capped vectors are
-the generated `sizes.*`, because the cap check of the model uses them). -/
-def szEcdh : Nat := 65
-def szMg : Nat := 56
-def szClsag : Nat := 88
-def szSig : Nat := 64
+`size_of` of the element types of push-grown vectors (`EcdhInfo` 65, `MgSig` 56, `Clsag` 88, `Signature` 64, `Vec<_>` header 24
+in the present build) — like the ones of the capped vectors (`sizes.*`) they are `std::mem::size_of` values of the CURRENT build of
+the library, regenerated on every run (Gen/Sizes.lean); the slope facts of Proofs/LedgerTx.lean (`GROW * szEcdh ≤ 33 * 8`, …) are
+re-checked against them. -/
+def szEcdh : Nat := Gen.szEcdh
+def szMg : Nat := Gen.szMg
+def szClsag : Nat := Gen.szClsag
+def szSig : Nat := Gen.szSig
 /-- `size_of::<Vec<_>>()`: pointer, capacity, length -/
-def szVec : Nat := 24
+def szVec : Nat := Gen.szVec
 
 /-! ## RctSigBase -/
 
